@@ -37,7 +37,7 @@ CHECKS["C08"] = dict(
    ref="C08")
 CHECKS["C09"] = dict(
    technique="reference-model monitor: executable pixel model of Scale evaluated on the source's own pixel grid; every pixel of every result compared",
-   text="Exploration: sources from all eleven families under several colour schemes, full (w,h) windows for small symbols and boundary grids for large ones, eight fill colours over five colour models, chains of up to three scalings, and enormous requests (2^31 … MaxInt in one or both dimensions, compared on a sample of coordinates: edges, both sides of module boundaries, module centres, a fixed scatter); acceptance rule, bounds, centring within one pixel, block replication, fill, Content/Metadata/CheckSum pass-through.",
+   text="Exploration: sources from all eleven families under several colour schemes, full (w,h) windows for small symbols and boundary grids for large ones, eight fill colours over five colour models, chains of up to three scalings, and enormous requests (2^31 … MaxInt in one or both dimensions, compared on a sample of coordinates: edges, both sides of module boundaries, module centres, a fixed scatter), chains through intermediate images of 65 535 … 2^20 pixels per axis; acceptance rule, bounds, centring within one pixel, block replication, fill, Content/Metadata/CheckSum pass-through.",
    note="trusted: the model in props/c09.go (factor = largest integer that fits; offset floor or ceil of the exact centre)",
    ref="C09")
 CHECKS["C14"] = dict(
@@ -87,12 +87,12 @@ CHECKS["C13"] = dict(
    ref="C13")
 CHECKS["C15"] = dict(
    technique="offline history checker: digests recorded by one-shot, long-lived and ordered-pair processes checked against the sequential model 'the digest of a request is a constant'; aliasing probes; retained-result re-hash; cache hook state log",
-   text="Exploration: request pool over all symbologies with one QR and one DataMatrix request per distinct Reed-Solomon degree, the same content under varied parameters, and the WithColor entry point of every family; fresh one-shot processes, long-lived histories (ascending/descending/random order, repetitions, retained barcodes re-hashed at the end), every ordered pair of QR degrees (and DataMatrix degrees in thorough) and QR equal-bit-count mode pairs in fresh processes; []byte aliasing and spare-capacity probes on Aztec.",
+   text="Exploration: request pool over all symbologies with one QR and one DataMatrix request per distinct Reed-Solomon degree, the same content under varied parameters, and the WithColor entry point of every family; fresh one-shot processes, long-lived histories (ascending/descending/random order, repetitions, retained barcodes re-hashed at the end), every ordered pair of QR degrees (and DataMatrix degrees in thorough) and QR equal-bit-count mode pairs in fresh processes; []byte aliasing, spare-capacity and buffer-reuse probes on Aztec (the same slice with new bytes is encoded again and decoded); QR mask-tie and version-step repetitions.",
    note="trusted: SHA-256 digest over bounds, pixels and accessors; hook utils/verif_on.go for the cache-state log",
    ref="C15")
 CHECKS["C16"] = dict(
    technique="Go race detector over repeated cold-start concurrent workloads in fresh processes + digest comparison against a sequential baseline + state-based goroutine-leak verdict + cache-invariant hook (separate sink-on pass)",
-   text="Exploration of schedules: per run 24 (quick) / 300 (thorough) fresh -race processes over the grid goroutines {2..64} x GOMAXPROCS {1..16}, each with a cold-start focus (RS-degree climb, Aztec 8/10/12-bit, PDF417, big DataMatrix/QR, 1D), plus 48 / 400 'micro' processes of cheap cold starts per 1D/small package and free-running streams of large Aztec symbols; the concurrent calls are the first library calls in each process (pre-barrier objects avoid the focus package); shared barcodes, barcodes on which nothing was called before the barrier, a shared scaled 2D barcode and shared RS encoders are read/used by all goroutines; rejected requests of every family run concurrently and their errors are re-read; any race report, digest difference from the sequential baseline, panic, deadlock (all goroutines blocked, confirmed by dump) or blocked library goroutine after quiescence is a violation.",
+   text="Exploration of schedules: per run 24 (quick) / 300 (thorough) fresh -race processes over the grid goroutines {2..64} x GOMAXPROCS {1..16}, each with a cold-start focus (RS-degree climb, Aztec 8/10/12-bit, PDF417, big DataMatrix/QR, 1D), plus 48 / 400 'micro' processes of cheap cold starts per 1D/small package and free-running streams of large Aztec symbols; the concurrent calls are the first library calls in each process (pre-barrier objects avoid the focus package); shared barcodes, barcodes on which nothing was called before the barrier, shared scaled 2D barcodes (factors 2, 8, 9, 13, rows read in disjoint bands) and shared RS encoders are read/used by all goroutines; rejected requests of every family (early and late refusal paths) run concurrently and their errors are re-read; per family one 'hammer' process calls the encoder in tight loops from all goroutines, refusals interleaved, every result decoded inline; any race report, digest difference from the sequential baseline, panic, deadlock (all goroutines blocked, confirmed by dump) or blocked library goroutine after quiescence is a violation.",
    note="the race detector sees only executed code; schedules are sampled; monitor adds no synchronisation in race-deciding runs",
    ref="C16")
 PENDING = {}
